@@ -16,7 +16,7 @@ Definition obs_res_eqb (a b : obs_res) : bool :=
 Definition bout_eqb (a b : bout) : bool :=
   match a, b with
   | OObs x, OObs y => obs_res_eqb x y
-  | OProbe q f, OProbe q' f' => N.eqb q q' && N.eqb f f'
+  | OProbe q f, OProbe q' f' => list_eqb N.eqb q q' && list_eqb N.eqb f f'
   | OCache n, OCache n' => N.eqb n n'
   | OTake t f, OTake t' f' => Bool.eqb t t' && Bool.eqb f f'
   | ONone, ONone => true
@@ -65,19 +65,45 @@ Fixpoint entries_ok (ttl : N) hist now (ms : list msg) (es : list (N * N * tdata
 Definition add_seen (seen : list N) (ms : list msg) : list N :=
   fold_left (fun s m => if memN (m_id m) s then s else m_id m :: s) ms seen.
 (* seen: the distinct message ids asked for so far (a message waits at most once, so the queue is never longer) *)
+(* the probe that follows an Observe (only worker pick-ups in between), if any: (ids waiting, ids being fetched) *)
+Fixpoint next_probe (evs : list bev) (outs : list bout) : option (list N * list N) :=
+  match evs, outs with
+  | BTake _ :: e', _ :: o' => next_probe e' o'
+  | BProbe :: _, OProbe q f :: _ => Some (q, f)
+  | _, _ => None
+  end.
+(* safety form of "every message asked for is eventually fetched": once Observe has answered and the idle workers have
+   picked up what they can, a message asked for is served from the cache, or waits in the queue, or is being fetched -
+   never silently dropped *)
+Definition accounted (ttl : N) (hist : list (N * tdata * N)) (now : N) (q f : list N) (m : msg) (e : N * N * tdata) : bool :=
+  negb (tdata_eqb (snd e) (initial_td m)) || memN (m_id m) q || memN (m_id m) f ||
+  match latest (m_id m) hist with       (* cached data that looks exactly like the placeholder *)
+  | Some (d', t) => tdata_eqb d' (initial_td m) && N.leb now (t + ttl)
+  | None => false
+  end.
+Fixpoint all_accounted ttl hist now q f (ms : list msg) (es : list (N * N * tdata)) : bool :=
+  match ms, es with
+  | m :: ms', e :: es' => accounted ttl hist now q f m e && all_accounted ttl hist now q f ms' es'
+  | _, _ => true
+  end.
 Fixpoint walk_ok (w ttl : N) (seen : list N) (hist : list (N * tdata * N)) (evs : list bev) (outs : list bout) : bool :=
   match evs, outs with
   | [], [] => true
   | BObserve ms now :: e', OObs r :: o' =>
       match r with
-      | Done es => entries_ok ttl hist now ms es       (* answered at once, mirrored structure, ready-only, not expired *)
+      | Done es => entries_ok ttl hist now ms es &&    (* answered at once, mirrored structure, ready-only, not expired *)
+                   match next_probe e' o' with
+                   | Some (q, f) => all_accounted ttl hist now q f ms es
+                   | None => true
+                   end
       | _ => false                                     (* blocked, or internal error *)
       end && walk_ok w ttl (add_seen seen ms) hist e' o'
   | BReturn id (FOk d) now :: e', _ :: o' =>
       walk_ok w ttl seen (if sup_ready d then (id, d, now) :: hist else hist) e' o'
   | BTake _ :: e', OTake t f :: o' => t && f && walk_ok w ttl seen hist e' o'      (* only waiting messages, oldest call first *)
   | BProbe :: e', OProbe q f :: o' =>
-      (N.eqb q 0 || N.leb w f) && N.leb q (N.of_nat (length seen)) && walk_ok w ttl seen hist e' o'   (* no idle worker while messages wait *)
+      (match q with [] => true | _ => N.leb w (N.of_nat (length f)) end) &&
+      Nat.leb (length q) (length seen) && nodupb N.eqb q && walk_ok w ttl seen hist e' o'   (* no idle worker while messages wait *)
   | _ :: e', _ :: o' => walk_ok w ttl seen hist e' o'
   | _, _ => false
   end.
